@@ -11,6 +11,11 @@ use slotted_egraphs::*;
 use std::collections::BTreeMap;
 
 pub fn sym_rules(r: &mut Rng) -> Vec<(String, Rewrite<LSym>)> {
+    sym_rules_n::<()>(r)
+}
+
+/// the same rule pool for an e-graph over `LSym` that carries an analysis
+pub fn sym_rules_n<N: Analysis<LSym> + 'static>(r: &mut Rng) -> Vec<(String, Rewrite<LSym, N>)> {
     let all: Vec<(&str, &str, &str)> = vec![
         ("app-comm", "(app ?a ?b)", "(app ?b ?a)"),
         ("pair-swap", "(pair ?a ?b)", "(pair ?b ?a)"),
